@@ -44,6 +44,7 @@ structure NodeRes where
   sol : Vec
   obj : Rat          -- caller's sense; meaningful when OPTIMAL
   near : Bool
+  iters : Nat := 0   -- pivots of the node LP (monitor: sizes the `max_iter` sweep of the harness)
   deriving Inhabited
 
 /-- `upper[j] < inf` comparisons: `none` is `+inf` -/
@@ -60,7 +61,7 @@ def solveNode (M : MilpIn) (eps : Rat) (maxIter : Nat) (lower : List Rat) (upper
   let idx := List.range n
   let lo (j : Nat) : Rat := lower.getD j 0
   let hi (j : Nat) : Option Rat := upper.getD j none
-  if idx.any (fun j => optLt (hi j) (lo j - eps)) then ⟨.INFEASIBLE, [], 0, false⟩ else
+  if idx.any (fun j => optLt (hi j) (lo j - eps)) then ⟨.INFEASIBLE, [], 0, false, 0⟩ else
   let fx (j : Nat) : Option Rat := fixedVal eps (lo j) (hi j)
   let free := idx.filter fun j => (fx j).isNone
   let fixedList := idx.filter fun j => (fx j).isSome
@@ -70,8 +71,8 @@ def solveNode (M : MilpIn) (eps : Rat) (maxIter : Nat) (lower : List Rat) (upper
     let obj := (fixedList.map fun j => vget M.c j * fv j).sum
     if (List.range M.b.length).any (fun i =>
         decide ((idx.map fun j => (M.A.getD i []).getD j 0 * vget sol j).sum > vget M.b i + eps)) then
-      ⟨.INFEASIBLE, [], 0, false⟩
-    else ⟨.OPTIMAL, sol, obj, false⟩
+      ⟨.INFEASIBLE, [], 0, false, 0⟩
+    else ⟨.OPTIMAL, sol, obj, false, 0⟩
   else
     let rowsA := (List.range M.b.length).map fun i =>
       let row := M.A.getD i []
@@ -86,12 +87,12 @@ def solveNode (M : MilpIn) (eps : Rat) (maxIter : Nat) (lower : List Rat) (upper
     let cRed := free.map fun j => vget M.c j
     let fixedObj := (fixedList.map fun j => vget M.c j * fv j).sum
     let r := solveLp cRed (allRows.map (·.1)) (allRows.map (·.2)) M.minimize eps maxIter
-    if r.status != .OPTIMAL then ⟨r.status, [], 0, r.near⟩ else
+    if r.status != .OPTIMAL then ⟨r.status, [], 0, r.near, r.iters⟩ else
     let full := idx.map fun j =>
       match fx j with
       | some v => v
       | none => vget r.x (free.idxOf j)
-    ⟨.OPTIMAL, full, r.objective.getD 0 + fixedObj, r.near⟩
+    ⟨.OPTIMAL, full, r.objective.getD 0 + fixedObj, r.near, r.iters⟩
 
 /-! ### per-node certificate check (monitor; discharges the hypothesis of the refinement theorem) -/
 
@@ -160,6 +161,7 @@ structure TState where
   sols : List Vec                -- `all_solutions`
   near : Bool
   ok : Bool := true              -- monitor: every explored node passed `nodeCheck`
+  maxIt : Nat := 0               -- monitor: largest pivot count of a single node LP
   deriving Inhabited
 
 structure MilpOut where
@@ -170,6 +172,7 @@ structure MilpOut where
   sols : List Vec                -- `Result.solutions` (`[]` when `None`)
   near : Bool
   ok : Bool := true              -- monitor: every explored node passed `nodeCheck`
+  maxIt : Nat := 0               -- monitor: largest pivot count of a single node LP
   deriving Inhabited
 
 inductive Iter where
@@ -246,13 +249,13 @@ def integralStep (M : MilpIn) (cfg : MilpCfg) (s1 : TState) (node : TNode) (r : 
   let sol := r.sol
   let sols := collectSols cfg s1.sols sol
   if isNewSol cfg s1.sols sol && decide (sols.length ≥ cfg.solutionLimit) then
-    .done ⟨.FEASIBLE, some (bestSol s1.best sol), some (bestObj s1.best r.obj), s1.explored, sols, s1.near, s1.ok⟩
+    .done ⟨.FEASIBLE, some (bestSol s1.best sol), some (bestObj s1.best r.obj), s1.explored, sols, s1.near, s1.ok, s1.maxIt⟩
   else if improvesBest M.sign s1.best r.obj then
     let gap := computeGap r.obj (gapArg M.sign node.bound)
     let s3 : TState := { s1 with sols := sols, best := offerBest M.sign s1.best sol r.obj,
                                  near := s1.near || nearEq gap cfg.gapTol }
     if decide (gap < cfg.gapTol) && cfg.solutionLimit == 1 then
-      .done ⟨.OPTIMAL, some sol, some r.obj, s3.explored, [], s3.near, s3.ok⟩
+      .done ⟨.OPTIMAL, some sol, some r.obj, s3.explored, [], s3.near, s3.ok, s3.maxIt⟩
     else .cont s3
   else .cont { s1 with sols := sols, best := offerBest M.sign s1.best sol r.obj }
 
@@ -265,7 +268,8 @@ def bnbIter (M : MilpIn) (cfg : MilpCfg) (s : TState) : Iter :=
     if prunedBy M.sign cfg.eps s.best node.bound then .cont s0 else
     let r := solveNode M cfg.eps cfg.maxIter node.lower node.upper
     let s1 : TState := { s0 with explored := s0.explored + 1, near := s0.near || nodeNear M cfg s r
-                                 ok := s0.ok && nodeCheck M cfg.eps node.lower node.upper r }
+                                 ok := s0.ok && nodeCheck M cfg.eps node.lower node.upper r
+                                 maxIt := max s0.maxIt r.iters }
     match nodeAct M cfg.eps s.best r with
     | .drop => .cont s1
     | .boundDrop => .cont s1
@@ -280,10 +284,10 @@ def bnbIter (M : MilpIn) (cfg : MilpCfg) (s : TState) : Iter :=
 /-- the tail of `solve_milp` after the loop -/
 def bnbFinish (cfg : MilpCfg) (s : TState) : MilpOut :=
   match s.best with
-  | none => ⟨if s.tree.isEmpty then .INFEASIBLE else .MAX_ITER, none, none, s.explored, [], s.near, s.ok⟩
+  | none => ⟨if s.tree.isEmpty then .INFEASIBLE else .MAX_ITER, none, none, s.explored, [], s.near, s.ok, s.maxIt⟩
   | some (x, bo) =>
     let status := if s.tree.isEmpty then Status.OPTIMAL else .FEASIBLE
-    ⟨status, some x, some bo, s.explored, if cfg.solutionLimit > 1 then s.sols else [], s.near, s.ok⟩
+    ⟨status, some x, some bo, s.explored, if cfg.solutionLimit > 1 then s.sols else [], s.near, s.ok, s.maxIt⟩
 
 /-- the `while` loop, `fuel` passes at most (`2·max_nodes + 2` always suffice) -/
 def bnbLoop (M : MilpIn) (cfg : MilpCfg) : Nat → TState → MilpOut
@@ -319,17 +323,17 @@ def initState (M : MilpIn) (cfg : MilpCfg) (root : NodeRes) : TState :=
    root.near || fracTie root.sol M.ints cfg.eps ||
      (M.ints.any fun j => nearEq (vget root.sol j) (-cfg.eps) || nearEq (vget root.sol j) (1 + cfg.eps)),
    -- the root bound comes from the first root solve: it is node-checked here
-   nodeCheck M cfg.eps (lower0 M) (upper0 M) root⟩
+   nodeCheck M cfg.eps (lower0 M) (upper0 M) root, root.iters⟩
 
 /-- `solve_milp(c, A, b, integers, …, heuristics=False)` -/
 def solveMilp (M : MilpIn) (cfg : MilpCfg) : MilpOut :=
   let root := solveNode M cfg.eps cfg.maxIter (lower0 M) (upper0 M)
   if root.status == .INFEASIBLE then
-    ⟨.INFEASIBLE, none, none, 0, [], root.near, nodeCheck M cfg.eps (lower0 M) (upper0 M) root⟩ else
-  if root.status == .UNBOUNDED then ⟨.UNBOUNDED, none, none, 0, [], root.near, true⟩ else
+    ⟨.INFEASIBLE, none, none, 0, [], root.near, nodeCheck M cfg.eps (lower0 M) (upper0 M) root, root.iters⟩ else
+  if root.status == .UNBOUNDED then ⟨.UNBOUNDED, none, none, 0, [], root.near, true, root.iters⟩ else
   match mostFractional root.sol M.ints cfg.eps with
   | none => ⟨.OPTIMAL, some root.sol, some root.obj, 1, [], root.near || fracTie root.sol M.ints cfg.eps,
-      root.status == .OPTIMAL && nodeCheck M cfg.eps (lower0 M) (upper0 M) root⟩
+      root.status == .OPTIMAL && nodeCheck M cfg.eps (lower0 M) (upper0 M) root, root.iters⟩
   | some _ => bnbLoop M cfg (2 * cfg.maxNodes + 2) (initState M cfg root)
 
 end Solvor.Lp
